@@ -37,7 +37,7 @@ ClassScen == {LET lc == LenSeq[(i % Len(LenSeq)) + 1]
                   wr == IF i % 2 = 0 THEN "lib" ELSE "cli"
                   nb == RandomElement({1, 2, 3, 8, 64}) IN
               [writer |-> wr, nbuf |-> nb, lenclass |-> lc,
-               content |-> RandomElement({"random", "constant", "zeros", "zeroruns", "repetitive"}),
+               content |-> RandomElement({"random", "constant", "zeros", "zeroruns", "repetitive", "midrun", "midrun"}),
                alg |-> RandomElement({0, 1, 2}), rel |-> RandomElement({"lt", "eq", "gt"}), bits |-> RandomElement({5, 9}),
                hl |-> RandomElement({4, 8, 16, 32, 64}), ctype |-> cp[1], clevel |-> cp[2], meta |-> RandomElement(0..4),
                delivery |-> RandomElement({"file", "pipe", "fifo"}), transport |-> RandomElement({"local", "http"}), sched |-> "natural", idx |-> i,
@@ -57,10 +57,17 @@ HugeScen == {[writer |-> wr, nbuf |-> nb, lenclass |-> "gt8mib", content |-> "ra
               meta |-> 1, delivery |-> "file", transport |-> tr, sched |-> "natural", idx |-> 0, over_existing |-> "none", reruns |-> <<>>]
              : wr \in {"lib", "cli"}, tr \in {"local", "http"}, h \in {8, 64}}
 
+\* a hole with data behind it: noise, a single-byte run of twice the maximum chunk size, noise - delivered from a file, then again through a
+\* pipe in irregular pieces (how much of the run a read brings in must not matter)
+RunScen == {[writer |-> wr, nbuf |-> 2, lenclass |-> "gtmax", content |-> "midrun", alg |-> a, rel |-> rl, bits |-> b, hl |-> 16, ctype |-> 0, clevel |-> 0,
+             meta |-> 0, delivery |-> "file", transport |-> "local", sched |-> "natural", idx |-> i, over_existing |-> "none", avg_off |-> "pow2",
+             reruns |-> <<[nbuf |-> 2, delivery |-> "pipe", sched |-> "natural"], [nbuf |-> 3, delivery |-> IF wr = "cli" THEN "fifo" ELSE "pipe", sched |-> "natural"]>>]
+            : wr \in {"lib", "cli"}, a \in {0, 1}, rl \in {"gt", "wide"}, b \in {9, 11}, i \in {1, 2, 3}}
+
 VARIABLE x
 Init == x = 0
 Next == x' = x
 Post == /\ TLCGet("stats").diameter >= 0
-        /\ ndJsonSerialize(IOEnv.GEN_OUT, SetToSeq(LateScen) \o SetToSeq(BigScen) \o SetToSeq(EqScen) \o SetToSeq(ExistScen) \o SetToSeq(IdScen) \o SetToSeq(ClassScen) \o SetToSeq(HugeScen))
+        /\ ndJsonSerialize(IOEnv.GEN_OUT, SetToSeq(LateScen) \o SetToSeq(BigScen) \o SetToSeq(EqScen) \o SetToSeq(ExistScen) \o SetToSeq(IdScen) \o SetToSeq(ClassScen) \o SetToSeq(HugeScen) \o SetToSeq(RunScen))
         /\ PrintT(<<"GENERATED", Cardinality(LateScen) + Cardinality(BigScen) + Cardinality(EqScen) + Cardinality(ExistScen) + Cardinality(IdScen) + Cardinality(ClassScen) + Cardinality(HugeScen)>>)
 =============================================================================
